@@ -12,6 +12,9 @@
 use crate::refvalue::{Native, Type, Value};
 use serde_json::{Value as J, json};
 
+/// Natives use their full alphabet down to this nesting level (quick: 1, thorough: 2), a short one deeper.
+pub static FULL_ALPHABET_LEVEL: std::sync::atomic::AtomicUsize = std::sync::atomic::AtomicUsize::new(1);
+
 fn s(x: &str) -> String {
     x.to_string()
 }
@@ -200,7 +203,7 @@ fn lines(alphs: &[Vec<Value>]) -> Vec<Vec<Value>> {
 pub fn alphabet(t: &Type, level: usize) -> Vec<Value> {
     let mut out: Vec<Value> = match t {
         Type::Native(n) => {
-            let mut v = native_alphabet(*n, level <= 1);
+            let mut v = native_alphabet(*n, level <= FULL_ALPHABET_LEVEL.load(std::sync::atomic::Ordering::Relaxed));
             if empty_must_be_accepted(t) && !n.is_stringish() {
                 v.push(Value::Empty);
             }
